@@ -30,20 +30,86 @@ UNITS = {
   'hr': unit({'vp_thr_s0r': [''], 'vp_thr_co': ['a'], 'vp_thr_res': [''], 'vp_thr_w': ['']}, recall=True),
 }
 COMMON = dict(harness='h_susp.c', timeout=900, native_cflags=['-fno-sanitize=null,pointer-overflow'])
+WORLD = ('World: 1 arena, OS threads T (slot 0, default dispatcher D0 = stack 0) and W (slot 1, Dw = stack 2), one coroutine dispatcher D1 (stack 1) '
+         'built as create_coroutine does and parked in the arena\'s real co-cache. Model threads are stacks; the only stub on the switch path is '
+         'swapcontext (caller parks, target becomes runnable). ')
+ORACLE = ('Oracle: no switch to a stack that is still executing; resume task published only after resume() was called, never twice, with an arena '
+          'reference held; the code after suspend() continues at most once and only after resume(); blocked-state oracle (all stacks parked, nothing '
+          'changes, task not continued = resume forgotten); final state: published/taken/advertised once, m_stack_state active, no dangling '
+          'm_prev_suspend_point, post-resume action consumed, dispatcher/thread attachment restored, coroutine back in the cache once, '
+          'arena::my_references balanced, owner-recall flags clear. Witnesses: both resolutions of the hand-shake (late / early resume) reachable. ')
+SCHED = 'Schedules: round-robin rounds over the stacks, a solver-chosen context switch before any IR load/store/atomic/call in free rounds; '
+def bnd(**kw):
+    b = {'os_threads': 2, 'suspend_points': 3, 'suspensions_of_the_task': 1, 'free_rounds': 1, 'forced_rounds': '1 settle + 1 probe', 'spin_unroll': 1, 'memory_model': 'SC'}
+    b.update(kw); return b
 HARNESSES = [
   dict(name='handshake', unit='hs', defines={'ROUNDS': 1, 'SETTLE': 1},
-       scenarios=[{'MODE': 0}, {'MODE': 1}, {'MODE': 0, 'CRIT': 1}], desc='', bounds={},
-       thorough_override=dict(defines={'ROUNDS': 2, 'SETTLE': 2}, timeout=3600), **COMMON),
-  dict(name='handshake_r3', unit='hs', defines={'ROUNDS': 3, 'SETTLE': 1}, tiers=['thorough'],
-       scenarios=[{'MODE': 0}], desc='', bounds={}, **dict(COMMON, timeout=3600)),
-  dict(name='twice', unit='h2', defines={'ROUNDS': 1, 'SETTLE': 4, 'NCYC': 2, 'MODE': 0}, tiers=['thorough'],
-       scenarios=[{}], desc='', bounds={}, **dict(COMMON, timeout=5400)),
-  dict(name='worker', unit='hw', defines={'ROUNDS': 1, 'SETTLE': 1, 'WORKER': 1, 'MODE': 0},
-       scenarios=[{}], desc='', bounds={},
-       thorough_override=dict(defines={'ROUNDS': 2, 'SETTLE': 2, 'WORKER': 1, 'MODE': 0}, timeout=3600), **COMMON),
-  dict(name='recall', unit='hr', defines={'ROUNDS': 2, 'SETTLE': 2, 'WORKER': 1, 'RECALL': 1, 'MODE': 0}, tiers=['thorough'],
-       scenarios=[{}], desc='', bounds={}, **dict(COMMON, timeout=5400)),
+       scenarios=[{'MODE': 0}, {'MODE': 1}, {'MODE': 0, 'CRIT': 1}],
+       desc='Real task_dispatcher::suspend (callback, internal_suspend, create_coroutine(thread_data&), resume, suspend_point_type::resume, co_context::resume) on stack 0 '
+            '|| real coroutine entry co_local_wait_for_all on stack 1 (finilize_resume, do_post_resume_action, [dispatch loop stub], cleanup, switch back) '
+            '|| MODE 0: a foreign thread calling the real r1::resume(sp) as soon as the callback handed sp out, MODE 1: the callback itself calls r1::resume; '
+            'CRIT 1: target dispatcher inside a critical task (critical stream). ' + WORLD + ORACLE + SCHED + 'quick: 1 free + 1 settle + probe round, thorough: 2 free + 2 settle + probe.',
+       bounds=bnd(model_threads='3 (MODE 1: 2)'),
+       thorough_override=dict(defines={'ROUNDS': 2, 'SETTLE': 2}, timeout=3600, bounds=bnd(model_threads='3 (MODE 1: 2)', free_rounds=2, forced_rounds='2 settle + 1 probe')), **COMMON),
+  dict(name='handshake_r2', unit='hs', defines={'ROUNDS': 2, 'SETTLE': 1}, scenarios=[{'MODE': 0}],
+       desc='handshake MODE 0 with 2 free rounds (two solver-chosen slices per stack before the forced rounds). ' + WORLD + ORACLE,
+       bounds=bnd(model_threads=3, free_rounds=2), **COMMON),
+  dict(name='handshake_r3', unit='hs', defines={'ROUNDS': 3, 'SETTLE': 1}, tiers=['thorough'], scenarios=[{'MODE': 0}],
+       desc='handshake MODE 0 with 3 free rounds (up to 3 slices per stack before the forced rounds). ' + WORLD + ORACLE,
+       bounds=bnd(model_threads=3, free_rounds=3), **dict(COMMON, timeout=3600)),
+  dict(name='twice', unit='h2', defines={'PLAN': 221221, 'NCYC': 2, 'MODE': 0}, tiers=['thorough'], scenarios=[{}],   # rounds F S S F S S + probe
+       desc='The task suspends a second time after it was continued: second hand-shake on the same suspend point; the coroutine is popped from the cache again and '
+            'continues inside its co_local_wait_for_all loop (task_dispatcher::resume returns true, post-resume action, next dispatch-loop round). The foreign thread resumes twice. '
+            'Rounds: free, forced, forced, free, forced, forced, probe (the second free round falls into the second suspension). ' + WORLD + ORACLE,
+       bounds=bnd(model_threads=3, suspensions_of_the_task=2, free_rounds=2, forced_rounds='4 + 1 probe'), **dict(COMMON, timeout=5400)),
+  dict(name='worker', unit='hw', defines={'ROUNDS': 1, 'SETTLE': 1, 'WORKER': 1, 'MODE': 0}, scenarios=[{}],
+       desc='handshake MODE 0 plus a second OS thread W at the outermost level of its dispatch loop that competes with T\'s coroutine for the published resume task; if it wins it '
+            'runs the real resume_task::execute (post-resume action notify, task_dispatcher::resume -> switch to stack 0) and the suspended task continues on W: '
+            'finilize_resume marks W\'s stack suspended, do_post_resume_action/recall_owner marks it notified + owner-recalled and notifies the monitor. '
+            'Extra oracle: both winners reachable; if W won: W attached to D0, T idle in its coroutine, W\'s stack suspended/notified/recalled, one arena reference per live coroutine. ' + WORLD + ORACLE + SCHED,
+       bounds=bnd(model_threads=4),
+       thorough_override=dict(defines={'ROUNDS': 2, 'SETTLE': 2, 'WORKER': 1, 'MODE': 0}, timeout=3600, bounds=bnd(model_threads=4, free_rounds=2, forced_rounds='2 settle + 1 probe')), **COMMON),
+  dict(name='recall', unit='hr', defines={'ROUNDS': 2, 'SETTLE': 2, 'WORKER': 1, 'RECALL': 1, 'MODE': 0}, tiers=['thorough'], scenarios=[{}],
+       desc='worker, followed by what the end of the outermost dispatch loop does: the real recall_point() on stack 0. If the task was continued on W: W switches back to its own '
+            '(recalled) stack, recall_owner(sp0) runs there after the switch, T finds the self-recall task (real get_self_recall_task polled by the dispatch-loop stub), switches home, '
+            'releases the coroutine. Oracle adds: after recall_point the original thread runs its own dispatcher on its own stack; both threads at home, both owner-recall flags clear, '
+            'both monitor notifications issued; never a switch to a running stack (recall_owner strictly after the switch). ' + WORLD + ORACLE,
+       bounds=bnd(model_threads=4, free_rounds=2, forced_rounds='2 settle + 1 probe', recall_point_recursion='1 level (nested level asserted unreachable)'), **dict(COMMON, timeout=5400)),
 ]
-OUTSIDE = []
-STUBS = []
-ASSUMPTIONS = []
+MANIFEST = dict(
+  level_text='Bounded model checking of the real suspend/resume code (task.cpp, task_dispatcher.cpp/.h, scheduler_common.h, co_context.h, arena co-cache) with stacks as model threads and '
+             'swapcontext as the only stub on the switch path: for a foreign, callback-internal or worker-mediated tbb::task::resume racing with the stack switch, every interleaving '
+             '(single-IR-memory-operation granularity) within the stated rounds is decided by the SAT solver for: the suspended code continues exactly once, only after resume, never on a '
+             'stack that is still executing, never forgotten (blocked-state oracle), resume task published exactly once, stack state back to active, thread/dispatcher attachment and arena '
+             'reference balance restored; owner recall (recall_point/recall_owner) and a second suspension of the same task in the thorough tier.',
+  level_note='Bounds per harness in evidence (2 OS threads + 1 foreign resumer, 3 stacks, 1-2 suspensions, 1-3 free rounds + forced rounds). Sequential consistency. The dispatch loop is a contract '
+             'stub (returns only with a resume task: stream or self-recall), streams/monitor/arena life-cycle are counting stubs (C01/C02/C16). Not covered: the enclosing wait, nested suspension '
+             'from inside a coroutine, the external-waiter (register_waiter) path, the context switch itself. Trusted: clang-14 IR, tools/ir2c.py, cbmc.',
+)
+OUTSIDE = [
+  'the coroutine switch itself (swapcontext/makecontext, stack memory, guard pages) and the thread-based coroutine emulation (__TBB_RESUMABLE_TASKS_USE_THREADS, Windows fibers)',
+  'the dispatch loop (local_wait_for_all / receive_or_steal_task): replaced by a contract stub, so "the suspending thread keeps executing other work" and "the enclosing wait does not complete while a covered task is suspended" are not checked',
+  'resume_task::execute under an external waiter (wait_ctx != null): resume_node double-notify hand-shake through the waiting-threads monitor (post_resume_action::register_waiter)',
+  'nested suspension (a task running on a coroutine suspends while another suspension of the same thread is outstanding), more than one coroutine, cache overflow / coroutine destruction, coroutine creation inside the run (cache empty)',
+  'more than 2 OS threads + 1 resumer, more than 2 suspensions, schedules needing more free rounds than stated; deeper than one level of recall_point recursion',
+  'arena destruction while tasks are suspended (on_thread_leaving is a counting stub; only the reference arithmetic is checked)',
+  'weak memory (non-SC) behaviour, incl. x86-TSO store buffering',
+  'user errors: resume called twice for one suspend point, or never',
+]
+STUBS = [
+  'swapcontext(from,to): saves the calling stack and parks it, marks the target runnable; asserts the target is not executing (the only stub on the switch path)',
+  'r1::create_coroutine(coroutine_type&, size, arg) [mmap+makecontext]: records the entry argument; coroutine starts in co_local_wait_for_all(arg) when first switched to; current_coroutine [getcontext]: no-op',
+  'task_dispatcher::local_wait_for_all<coroutine_waiter>: returns only with a resume task: the self-recall task (real get_self_recall_task) or one taken from the resume stream (each published task once); parks otherwise',
+  'worker W\'s dispatch loop: obtains the published resume task or gives up once the task was continued',
+  'task_stream::push (resume / critical stream), arena::advertise_new_work<wakeup>: counting stubs with order assertions',
+  'arena::on_thread_leaving(ref): subtracts ref from my_references (no arena destruction), asserts no underflow / not the last reference',
+  'concurrent_monitor::notify(pred) for the owner-recall tag: records the tag; arena::get_waiting_threads_monitor: dummy object',
+  'cache_aligned_allocate: typed static storage before the threads start, assertion inside threads; task_group_context_impl::bind_to: no-op; calculate_stealing_threshold / worker_stack_size: constants',
+  'task_dispatcher::init_suspend_point, arena_co_cache::internal_task_dispatcher_cleanup, resume_node::notify, (units without recall) recall_point: asserting stubs (must be unreachable)',
+]
+ASSUMPTIONS = [
+  'the user calls tbb::task::resume exactly once per suspend point handed to the callback',
+  'the suspending task runs inside a dispatch loop (m_properties.outermost == false), as every task does',
+  'every suspend point / coroutine exists before the race starts (created by the same constructors the lazy paths call); the arena co-cache holds the one coroutine',
+  'slot 1 and the mailboxes are separate objects instead of arena::my_slots[1] / arena::mailbox(i) (the encoded functions reach them only through thread_data::my_arena_slot / my_inbox)',
+]
